@@ -16,7 +16,7 @@ from hgsim.util import canon, digest
 
 ID = "C12"
 LEVEL = "exploration"
-BUDGET = {"quick": (8, 220, 45), "thorough": (16, 15000, 600)}
+BUDGET = {"quick": (8, 550, 90), "thorough": (16, 15000, 600)}
 RULE = (
     "seeded general programs (nested, mapped, cyclic, gated, optionally cacheable with a warm cache, optionally one or two injected node "
     "failures), top-level run and map, SyncRunner and AsyncRunner under SimLoop with body delays AND async recording processors that "
